@@ -81,6 +81,10 @@ func handle(p []string) (res string) {
 		return opCborEncRT(p[1:])
 	case "cbordec":
 		return opCborDec(p[1:])
+	case "jsondec":
+		return opJsonDec(p[1:])
+	case "jsonenc":
+		return opJsonEnc(p[1:])
 	}
 	return "bad-op"
 }
